@@ -73,7 +73,7 @@ CHECKS.update({
                 ref="DESIGN.md §4 C20", note="Trusted base: CrossHair 0.0.110 + z3, CPython; AST transformation of _run_update_thread into a generator (granularity checked on the source); Lock/Event/Thread/time stubs; floats as reals; widgets run untraced on realised counts."),
 })
 CHECKS["C17"] = e2("With one asynchronous KeyboardInterrupt transition in the coordinating thread (any step boundary while a call is in flight): no worker passes its stop test once the coordinator has begun releasing the workers, in-flight calls end, every thread exits (no deadlock: unwinding query), run raises KeyboardInterrupt.", "DESIGN.md §4 C17")
-CHECKS["C17"]["note"] = E2_NOTE + " Interrupt positions = step boundaries of the coordinator (before every shared-state operation); positions between a visible operation and the thread-local instructions fused behind it (e.g. between Thread.start() returning and workers.append) are not explored; real SIGINT delivery and a second interrupt are outside."
+CHECKS["C17"]["note"] = E2_NOTE + " Interrupt positions = before every shared-state operation of the coordinator and before every call-like operation on its own bookkeeping (so 'thread started, not yet recorded' is a position); the start/append window carries the known finding C17:interrupt-between-thread-start-and-append (reported as KNOWN-FINDING; every other bit there, and every bit everywhere else, must be clean). Real SIGINT delivery (replaced by an exception raised from a sys.monitoring instruction callback) and a second interrupt are outside."
 
 NOT_YET = {}
 props = [json.loads(l) for l in open(os.path.join(HERE, "properties.jsonl"))]
